@@ -132,8 +132,13 @@ def check_C14(chk):
 
     # ---- the value of the variable
     values = ["0", "-1", "abc", "", " ", "1x", "1.5", "-", "+", "2 x", "0x10", "1e3", "00", "-0", "1", "2", "30", "+1", " 2", "007", "2 ",
-              "99999999999", "2147483647", "2147483648", "99999999999999999999", "\t1"]
-    invalid_for_sure = {"0", "-1", "abc", "", " ", "1x", "1.5", "-", "+", "2 x", "0x10", "1e3", "00", "-0", "2 "}
+              "99999999999", "2147483647", "2147483648", "99999999999999999999", "\t1",
+              # negative values whose low 32 (or 64) bits are a positive number
+              "-4294967294", "-4294967295", "-2147483649", "-18446744073709551615", "-18446744073709551614", "-9223372036854775809",
+              "-2147483648", "-99999999999", "-99999999999999999999999"]
+    invalid_for_sure = {"0", "-1", "abc", "", " ", "1x", "1.5", "-", "+", "2 x", "0x10", "1e3", "00", "-0", "2 ",
+                        "-4294967294", "-4294967295", "-2147483649", "-18446744073709551615", "-18446744073709551614",
+                        "-9223372036854775809", "-2147483648", "-99999999999", "-99999999999999999999999"}
     valid_for_sure = {"1", "2", "30"}
     acc = vlib.run_model("runner", ["(timeout-accepts %s)" % ("e" if not v else "(" + " ".join(str(b) for b in v.encode()) + ")") for v in values])
     root = L.Suite(0, children=[L.Test(1, body=[("c", 1)])])
